@@ -182,20 +182,59 @@ def ob_f_shared(ob):
 def replay_scf_bookkeeping(driver, c0, c1, c2):
     from . import scfsim as X
 
-    bad = X.bookkeeping_violations(driver, c0, c1, c2)
+    bad = X.bookkeeping_violations(driver, c0, c1, c2) if driver != 3 else X.ksa_violations(c0, c1, c2)
     for b in bad[:4]:
         print("  ", b)
+    if driver == 3:
+        bad = bad + replay_ksa_real_batch()
     return bool(bad)
 
 
-@obligation(PID, "g", title="SCF drivers under partial convergence (fixed mixing, adaptive mixing, adaptive + Pulay): at every density step the Fock matrices of the still-active molecules arrive together with the atom counts and occupation numbers of the same molecules, and the convergence flags returned are those of the schedule — for every order in which the molecules of a batch converge")
+def replay_ksa_real_batch():
+    """The same through the public API: CH4 + H2O in one batch with the KSA converger against each molecule alone."""
+    import io
+    import contextlib
+    from seqm.Molecule import Molecule
+    from seqm.ElectronicStructure import Electronic_Structure
+    from seqm.seqm_functions.constants import Constants
+
+    geo = {"H2O": ([8, 1, 1], [[0.0, 0, 0], [0.96, 0.1, 0], [-0.24, 0.93, 0.2]]), "CH4": ([6, 1, 1, 1, 1], [[0, 0, 0], [0.63, 0.63, 0.63], [-0.63, -0.63, 0.63], [-0.63, 0.63, -0.63], [0.63, -0.63, -0.63]])}
+    xl = {"k": 4, "max_rank": 3, "err_threshold": 0.0, "T_el": 1500}
+
+    def run(names):
+        n = max(len(geo[k][0]) for k in names)
+        sp = torch.tensor([geo[k][0] + [0] * (n - len(geo[k][0])) for k in names])
+        xyz = torch.tensor([geo[k][1] + [[0.0, 0, 0]] * (n - len(geo[k][1])) for k in names], dtype=torch.float64)
+        par = {"method": "AM1", "scf_eps": 1e-8, "scf_converger": [3, dict(xl)], "sp2": [False]}
+        with contextlib.redirect_stdout(io.StringIO()):
+            m = Molecule(Constants(), par, xyz, sp)
+            m.verbose = False
+            Electronic_Structure(par)(m, xl_bomd_params=dict(xl))
+        return [float(x) for x in m.Etot]
+
+    bad = []
+    alone = [run(["CH4"])[0], run(["H2O"])[0]]
+    try:
+        both = run(["CH4", "H2O"])
+        for k, (a, b) in enumerate(zip(alone, both)):
+            if abs(a - b) > 1e-5:
+                bad.append("real batch [CH4, H2O], KSA converger: molecule %d has Etot %.8f in the batch and %.8f alone" % (k, b, a))
+    except Exception as ex:  # noqa
+        bad.append("real batch [CH4, H2O], KSA converger: %s: %s (each molecule alone converges: %.6f, %.6f eV)" % (type(ex).__name__, str(ex)[:120], alone[0], alone[1]))
+    for b in bad:
+        print("  ", b)
+    return bad
+
+
+@obligation(PID, "g", title="SCF drivers under partial convergence (fixed mixing, adaptive mixing, adaptive + Pulay, Krylov subspace KSA): the driver completes, at every density step the Fock matrices of the still-active molecules arrive together with the atom counts and occupation numbers of the same molecules, and the convergence flags returned are those of the schedule — for every order in which the molecules of a batch converge")
 def ob_g(ob):
     from seqm.seqm_functions import scf_loop as SL
     from engine import chrun
 
-    ob.encodes(SL.scf_forward0, SL.scf_forward1, SL.scf_forward2)
+    ob.encodes(SL.scf_forward0, SL.scf_forward1, SL.scf_forward2, SL.scf_forward3)
     ob.bound("batch of 3 molecules; the iteration at which each molecule converges is a symbolic int in [1,6] (thorough: [1,9], iteration cap 11) (every relative order, ties, and one molecule never converging within the iteration cap of 8 for Pulay's longer start-up); three drivers")
     ob.assume("Fock build, density step and convergence test are recorders; the DIIS linear algebra of the Pulay driver runs for real on the recorder's matrices")
+    ob.assume("KSA driver: molecules of 9, 6 and 5 orbitals; the finite-temperature density step (Fermi_Q), the response step (Canon_DM_PRT), the response Fock build and the electronic energy are recorders that return tensors of the SHAPES the real functions return (a sub-batch is packed to the width of its largest molecule); the Krylov/Arnoldi algebra and the rank-m update run for real; rank 2, iteration cap = bound + 2")
     pre = "from harness import scfsim as X\n"
     slices = []
     hi = 6 if ob.tier != "thorough" else 9
@@ -203,6 +242,10 @@ def ob_g(ob):
         sl = chrun.Slice("S%d" % drv, pre, "c0: int, c1: int, c2: int", "1 <= c0 <= %d and 1 <= c1 <= %d and 1 <= c2 <= %d" % (hi, hi, hi), "return X.bookkeeping_violations(%d, c0, c1, c2, %d) == []" % (drv, hi + 2), "_", 300 if hi == 6 else 1200)
         sl.meta = dict(driver=drv)
         slices.append(sl)
+    hk = 5 if ob.tier != "thorough" else 8
+    sl = chrun.Slice("S3", pre, "c0: int, c1: int, c2: int", "1 <= c0 <= %d and 1 <= c1 <= %d and 1 <= c2 <= %d" % (hk, hk, hk), "return X.ksa_violations(c0, c1, c2, %d) == []" % (hk + 2), "_", 300 if hk == 5 else 1200)
+    sl.meta = dict(driver=3)
+    slices.append(sl)
     tw = chrun.Slice("twin_scf", pre, "c0: int, c1: int, c2: int", "1 <= c0 <= 6 and 1 <= c1 <= 6 and 1 <= c2 <= 6", "return X.bookkeeping_violations(2, c0, c1, c2) == [] and not (c0 == 2 and c1 == 5 and c2 == 3)", "_", 300)
     tw.meta = dict(driver=2)
     res = chrun.run_slices(slices + [tw], jobs=8)
@@ -223,7 +266,7 @@ def ob_g(ob):
             print("counterexample from CrossHair:", r["call"])
             from . import scfsim as X
 
-            bad = X.bookkeeping_violations(**kw)
+            bad = X.bookkeeping_violations(**kw) if kw["driver"] != 3 else X.ksa_violations(kw["c0"], kw["c1"], kw["c2"])
             if bad:
                 ob.violation("SCF driver %d, molecules converging at iterations (%d, %d, %d): %s" % (kw["driver"], kw["c0"], kw["c1"], kw["c2"], bad[0][:260]), {"module": "harness.C04", "func": "replay_scf_bookkeeping", "args": kw})
             else:
